@@ -6,6 +6,7 @@ import (
 	"log/slog"
 	"net/http"
 	"reservoir/utils/syncmap"
+	"sync"
 	"time"
 )
 
@@ -24,6 +25,9 @@ const extendThreshold = 10 * time.Minute
 const gcInterval = 15 * time.Minute
 
 var sessionStore *syncmap.SyncMap[string, *Session] = syncmap.New[string, *Session]()
+
+// Guards the fields of stored sessions (ExpiresAt is extended by concurrent requests)
+var sessionMu sync.Mutex
 var gcRunning = false
 
 func StartSessionGC() {
@@ -37,7 +41,10 @@ func StartSessionGC() {
 		for range ticker.C {
 			now := time.Now()
 			for item := range sessionStore.Items() {
-				if item.ExpiresAt.Before(now) {
+				sessionMu.Lock()
+				expired := item.ExpiresAt.Before(now)
+				sessionMu.Unlock()
+				if expired {
 					sessionStore.Delete(item.ID)
 					slog.Debug("Deleted expired session", "session_id", item.ID)
 				}
@@ -53,6 +60,9 @@ func GetSession(sid string) (*Session, bool) {
 	if !ok {
 		return nil, false
 	}
+
+	sessionMu.Lock()
+	defer sessionMu.Unlock()
 
 	// An expired session is refused (and dropped), never revived
 	remaining := time.Until(sess.ExpiresAt)
@@ -100,7 +110,7 @@ func SessionFromRequest(r *http.Request) (sess *Session, ok bool) {
 	if !ok {
 		return nil, false
 	}
-	slog.Debug("Got session from cookie", "session_id", sid, "expires_at", sess.ExpiresAt)
+	slog.Debug("Got session from cookie", "session_id", sid)
 
 	return sess, true
 }
